@@ -446,11 +446,11 @@ package ion
 //@ safe[C06]
 
 //@ func (*Decimal).trunc
-//@ trusted thin: called by contract (digit-string based, outside the subset); assumed not to touch its operand
+//@ safe[C06,C14]
 //@ requires specDecWF(d)
 //@ modifies nothing
 //@ func (*Decimal).round
-//@ trusted thin: called by contract (floating point based, outside the subset); assumed not to touch its operand
+//@ safe[C06,C14]
 //@ requires specDecWF(d)
 //@ modifies nothing
 
@@ -735,6 +735,28 @@ package ion
 //@ interface SharedSymbolTable.Version
 //@ pure
 
+// catalog.go: a table is filed under its exact name and version whatever else the catalog
+// holds, and the latest version of a name is the one with the largest version number added
+// so far, in whatever order they were added (C10, C11).
+//@ func (*basicCatalog).add
+//@ requires sst != nil && c.ssts != nil && c.latest != nil && (specHasLatest(c, sst.Name()) ==> c.latest[sst.Name()] != nil) && !vcSameObject(c.ssts, c.latest)
+//@ modifies c.ssts{*}, c.latest{*}
+//@ ensures[C10,C11] c.ssts[specCatalogKey(sst.Name(), sst.Version())] == sst
+//@ ensures[C10,C11] !old(specHasLatest(c, sst.Name())) ==> c.latest[sst.Name()] == sst
+//@ ensures[C10,C11] old(specHasLatest(c, sst.Name())) && sst.Version() > old(c.latest[sst.Name()]).Version() ==> c.latest[sst.Name()] == sst
+//@ ensures[C10,C11] old(specHasLatest(c, sst.Name())) && sst.Version() <= old(c.latest[sst.Name()]).Version() ==> c.latest[sst.Name()] == old(c.latest[sst.Name()])
+//@ safe[C06,C10]
+
+//@ func (*basicCatalog).FindExact
+//@ requires c.ssts != nil
+//@ modifies nothing
+//@ ensures[C10,C11] result == c.ssts[specCatalogKey(name, version)]
+
+//@ func (*basicCatalog).FindLatest
+//@ requires c.latest != nil
+//@ modifies nothing
+//@ ensures[C10,C11] result == c.latest[name]
+
 //@ func buildIndex
 //@ requires offset < 1<<62
 //@ invariant loop0 [idx_ int, index map[string]uint64] idx_ >= -1 && idx_ < len(symbols) && vcMapAllU64(index, func(id uint64) bool { return offset <= id && id < offset+uint64(idx_+1) })
@@ -758,9 +780,9 @@ package ion
 
 //@ func (*sst).FindByID
 //@ modifies nothing
-//@ ensures[C09] id == 0 || id > uint64(len(s.symbols)) ==> !result1
-//@ ensures[C09] 1 <= id && id <= uint64(len(s.symbols)) ==> result1 && result0 == s.symbols[id-1]
-//@ safe[C06,C09]
+//@ ensures[C05,C09,C10] id == 0 || id > uint64(len(s.symbols)) ==> !result1
+//@ ensures[C05,C09,C10] 1 <= id && id <= uint64(len(s.symbols)) ==> result1 && result0 == s.symbols[id-1]
+//@ safe[C05,C06,C09,C10]
 
 //@ func (*sst).FindByName
 //@ requires sstWF(s)
@@ -912,7 +934,7 @@ package ion
 //@ atcall[C13] (*binaryWriter).writeBigInt a1 == val
 //@ counts (*binaryWriter).writeBigInt
 //@ counts (*binaryWriter).endValue
-//@ ensures[C12] err == nil && old(w.err) == nil ==> vcCalls("(*binaryWriter).writeBigInt") == 1 && vcCalls("(*binaryWriter).endValue") == 1
+//@ ensures[C04,C12] err == nil && old(w.err) == nil ==> vcCalls("(*binaryWriter).writeBigInt") == 1 && vcCalls("(*binaryWriter).endValue") == 1
 //@ ensures[C12,C19] old(w.err) != nil ==> err == old(w.err) && w.err == old(w.err)
 //@ ensures[C12,C19] err != nil ==> w.err != nil
 
@@ -932,7 +954,7 @@ package ion
 //@ atcall[C05] (*binaryWriter).writeSymbolFromID [id uint64] a2 == id && (val.Text == nil ==> val.LocalSID != SymbolIDUnknown && id == uint64(val.LocalSID))
 //@ atcall[C05,C11] (*binaryWriter).writeSymbolFromID val.Text != nil ==> vcCalls("(*binaryWriter).resolveFromSymbolTable") == 1
 //@ counts (*binaryWriter).writeSymbolFromID
-//@ ensures[C12] err == nil && old(w.err) == nil ==> vcCalls("(*binaryWriter).writeSymbolFromID") == 1
+//@ ensures[C04,C12] err == nil && old(w.err) == nil ==> vcCalls("(*binaryWriter).writeSymbolFromID") == 1
 //@ ensures[C12,C19] old(w.err) != nil ==> err == old(w.err) && w.err == old(w.err)
 //@ ensures[C12,C19] err != nil ==> w.err != nil
 
@@ -940,7 +962,7 @@ package ion
 //@ split returns
 //@ modifies *
 //@ counts (*binaryWriter).writeSymbolFromID
-//@ ensures[C12] err == nil && old(w.err) == nil ==> vcCalls("(*binaryWriter).writeSymbolFromID") == 1
+//@ ensures[C04,C12] err == nil && old(w.err) == nil ==> vcCalls("(*binaryWriter).writeSymbolFromID") == 1
 //@ atcall[C05,C11] (*binaryWriter).resolve a2 == val
 //@ atcall[C05,C11] (*binaryWriter).writeSymbolFromID [id uint64] a2 == id
 //@ ensures[C12,C19] old(w.err) != nil ==> err == old(w.err) && w.err == old(w.err)
@@ -959,7 +981,7 @@ package ion
 //@ modifies *
 //@ counts (*binaryWriter).writeLob
 //@ counts (*binaryWriter).endValue
-//@ ensures[C12] err == nil && old(w.err) == nil ==> vcCalls("(*binaryWriter).writeLob") == 1 && vcCalls("(*binaryWriter).endValue") == 1
+//@ ensures[C04,C12] err == nil && old(w.err) == nil ==> vcCalls("(*binaryWriter).writeLob") == 1 && vcCalls("(*binaryWriter).endValue") == 1
 //@ atcall[C01,C12] (*binaryWriter).writeLob a1 == 0x90 && vcSameArray(a2, val) && len(a2) == len(val)
 //@ ensures[C12,C19] old(w.err) != nil ==> err == old(w.err) && w.err == old(w.err)
 //@ ensures[C12,C19] err != nil ==> w.err != nil
@@ -969,7 +991,7 @@ package ion
 //@ modifies *
 //@ counts (*binaryWriter).writeLob
 //@ counts (*binaryWriter).endValue
-//@ ensures[C12] err == nil && old(w.err) == nil ==> vcCalls("(*binaryWriter).writeLob") == 1 && vcCalls("(*binaryWriter).endValue") == 1
+//@ ensures[C04,C12] err == nil && old(w.err) == nil ==> vcCalls("(*binaryWriter).writeLob") == 1 && vcCalls("(*binaryWriter).endValue") == 1
 //@ atcall[C01,C12] (*binaryWriter).writeLob a1 == 0xA0 && vcSameArray(a2, val) && len(a2) == len(val)
 //@ ensures[C12,C19] old(w.err) != nil ==> err == old(w.err) && w.err == old(w.err)
 //@ ensures[C12,C19] err != nil ==> w.err != nil
@@ -1032,16 +1054,19 @@ package ion
 
 //@ func (*textWriter).WriteInt
 //@ modifies *
+//@ atcall[C01,C13] (*textWriter).writeValue vcIsString(a2) && vcAsString(a2) == specIntText(val)
 //@ ensures[C12,C19] old(w.err) != nil ==> err == old(w.err) && w.err == old(w.err)
 //@ ensures[C12,C19] err != nil ==> w.err != nil
 
 //@ func (*textWriter).WriteUint
 //@ modifies *
+//@ atcall[C01,C13] (*textWriter).writeValue vcIsString(a2) && vcAsString(a2) == specUintText(val)
 //@ ensures[C12,C19] old(w.err) != nil ==> err == old(w.err) && w.err == old(w.err)
 //@ ensures[C12,C19] err != nil ==> w.err != nil
 
 //@ func (*textWriter).WriteBigInt
 //@ modifies *
+//@ atcall[C01,C13] (*textWriter).writeValue vcIsString(a2) && vcAsString(a2) == val.String()
 //@ ensures[C12,C19] old(w.err) != nil ==> err == old(w.err) && w.err == old(w.err)
 //@ ensures[C12,C19] err != nil ==> w.err != nil
 
@@ -1193,6 +1218,15 @@ package ion
 //@ atcall[C05,C11] appendVarUint#0 [id uint64, name *SymbolToken] a1 == id && name != nil &&
 //@    (vcCalls("(*binaryWriter).resolve") == 0 ==> name.Text == nil && name.LocalSID != SymbolIDUnknown && id == uint64(name.LocalSID))
 //@ atcall[C05,C11] (*binaryWriter).resolve#1 [a SymbolToken] a.Text != nil && a2 == *a.Text
+// an annotation that cannot be resolved ends the call: no later annotation runs with an error pending
+//@ invariant loop0 vcFailed("(*binaryWriter).resolve") == 0
+//@ ensures[C11,C12] vcFailed("(*binaryWriter).resolve") > 0 ==> err != nil
+// annot_length is the byte length of the IDs: each ID is measured as the VarUInt it is written as,
+// the length field carries that sum and the IDs follow as VarUInts
+//@ atcall[C04,C12] varUintLen#0 [id uint64] a0 == id
+//@ atcall[C04,C12] varUintLen#1 [idlen uint64] a0 == idlen
+//@ atcall[C04,C12] appendVarUint#1 [idlen uint64] a1 == idlen && len(a0) == 0
+//@ atcall[C04,C12] appendVarUint#2 [id uint64] a1 == id
 //@ atcall[C11] (*binaryWriter).writeLST old(w.lst) != nil && !old(w.wroteLST) && a1 == old(w.lst)
 //@ ensures[C12] (old(w.lst) == nil || old(w.wroteLST)) && old(len(w.ctx.arr)) > 0 && old(w.ctx.arr[len(w.ctx.arr)-1]) == ctxInStruct && old(w.fieldName) == nil ==> err != nil
 //@ ensures[C12] (old(w.lst) == nil || old(w.wroteLST)) && old(len(w.ctx.arr)) > 0 && old(w.ctx.arr[len(w.ctx.arr)-1]) == ctxInStruct && old(w.fieldName) != nil &&
@@ -1215,7 +1249,7 @@ package ion
 //@ counts (*ctxstack).push
 //@ counts (*bufstack).push
 //@ atcall[C12] (*ctxstack).push a1 == t
-//@ ensures[C12] err == nil ==> vcCalls("(*ctxstack).push") == 1 && vcCalls("(*bufstack).push") == 1
+//@ ensures[C04,C12] err == nil ==> vcCalls("(*ctxstack).push") == 1 && vcCalls("(*bufstack).push") == 1
 //@ ensures[C12] err != nil ==> vcCalls("(*ctxstack).push") == 0 && vcCalls("(*bufstack).push") == 0
 
 // Closing a container is refused unless that kind of container is open; on success its
@@ -1226,7 +1260,7 @@ package ion
 //@ counts (*ctxstack).pop
 //@ counts (*binaryWriter).endValue
 //@ ensures[C12] old(specCtxTop(w.ctx.arr)) != t ==> err != nil && vcCalls("(*ctxstack).pop") == 0
-//@ ensures[C12] err == nil ==> vcCalls("(*ctxstack).pop") == 1 && vcCalls("(*binaryWriter).endValue") == 1
+//@ ensures[C04,C12] err == nil ==> vcCalls("(*ctxstack).pop") == 1 && vcCalls("(*binaryWriter).endValue") == 1
 
 // A node goes to the output only at top level, otherwise it is appended to the open buffer (C12).
 //@ func (*binaryWriter).emit
@@ -1275,7 +1309,7 @@ package ion
 //@ counts (*binaryWriter).write
 //@ counts (*binaryWriter).endValue
 //@ atcall[C01,C12] (*binaryWriter).write vcSameArray(a1, val) && len(a1) == len(val)
-//@ ensures[C12] err == nil && old(w.err) == nil ==> vcCalls("(*binaryWriter).beginValue") == 1 && vcCalls("(*binaryWriter).write") == 1 && vcCalls("(*binaryWriter).endValue") == 1
+//@ ensures[C04,C12] err == nil && old(w.err) == nil ==> vcCalls("(*binaryWriter).beginValue") == 1 && vcCalls("(*binaryWriter).write") == 1 && vcCalls("(*binaryWriter).endValue") == 1
 //@ ensures[C12,C19] old(w.err) != nil ==> err == old(w.err) && w.err == old(w.err)
 //@ ensures[C12,C19] err != nil ==> w.err != nil
 //@ ensures[C12] old(w.err) == nil && (old(w.lst) == nil || old(w.wroteLST)) && old(len(w.ctx.arr)) > 0 && old(w.ctx.arr[len(w.ctx.arr)-1]) == ctxInStruct && old(w.fieldName) == nil ==> err != nil
@@ -1299,6 +1333,9 @@ package ion
 // replaces it (C04, C12).
 //@ func (*textWriter).Finish
 //@ modifies *
+//@ counts writeRawChar
+//@ ensures[C12,C19] vcFailed("writeRawChar") > 0 ==> err != nil
+//@ ensures[C12,C19] w.err != nil ==> err != nil
 //@ ensures[C12,C19] old(w.err) != nil ==> err == old(w.err) && w.err == old(w.err)
 //@ ensures[C04,C12] err == nil && old(w.needsSeparator) && (old(w.emptyStream) || old(w.opts)&TextWriterQuietFinish != 0) ==> w.needsSeparator
 //@ ensures[C04,C12] err == nil ==> w.fieldName == nil && len(w.annotations) == 0
@@ -1364,9 +1401,18 @@ package ion
 
 // Text timestamps: an offset of 24 hours or more, or 60 minutes or more, is rejected (C15).
 //@ opaque computeOffset
+// The hour field is the two characters after the sign, the minute field is everything after
+// the colon; strconv.ParseInt itself is outside the engine's subset (callers use
+// computeOffset as an uninterpreted function of the text: the same text, the same fields).
 //@ func computeOffset
-//@ trusted assumed pure: the same text yields the same fields (strconv.ParseInt is outside the engine's subset)
+//@ requires 0 <= idx && idx <= len(val)
 //@ modifies nothing
+//@ atcall[C01,C15] strconv.ParseInt#0 :: string, int, int :: len(a0) == 2 && a1 == 10
+//@ atcall[C01,C15] strconv.ParseInt#0 :: string, int, int :: forall k int :: 0 <= k && k < 2 ==> a0[k] == val[idx+1+k]
+//@ atcall[C01,C15] strconv.ParseInt#1 :: string, int, int :: len(a0) == len(val)-idx-4 && len(a0) >= 1 && a1 == 10
+//@ atcall[C01,C15] strconv.ParseInt#1 :: string, int, int :: forall k int :: 0 <= k && k < len(a0) ==> a0[k] == val[idx+4+k]
+//@ ensures[C07,C15] idx+5 > len(val) || val[idx+3] != ':' ==> err != nil
+//@ safe[C06]
 
 //@ func computeTimezoneKind
 //@ requires 0 <= idx && idx <= len(val)
@@ -1385,6 +1431,14 @@ package ion
 // folded to "\n" (Ion text: all newline forms are one newline), -1 at a clean end, and an
 // error when the underlying reader fails. The result does not depend on how the bytes are
 // chunked: the ghost stream has no chunks (C19).
+
+// Ion text: inside quoted text the control characters U+0000..U+001F are prohibited except
+// horizontal tab, vertical tab and form feed (the grammar's WS_NOT_NL) and, left to the
+// caller, the two line-break characters.
+//@ func isProhibitedControlChar
+//@ modifies nothing
+//@ ensures[C02,C07] result == (0 <= c && c <= 0x1F && c != 0x09 && c != 0x0A && c != 0x0B && c != 0x0C && c != 0x0D)
+//@ safe[C06]
 
 //@ func (*tokenizer).read
 //@ split returns
@@ -1463,9 +1517,18 @@ package ion
 //@ modifies t.unfinished
 //@ ensures !t.unfinished
 
+// The keywords are values only when unquoted: a quoted 'null', 'true', 'false' or 'nan' is a
+// symbol with that text (C02).
 //@ func (*textReader).onSymbol
-//@ trusted thin: assumed to set the value fields and the state consistently (literal parsing not under contract)
-//@ requires txInv(t)
+//@ split returns
+//@ safe[C06]
+//@ requires txInv(t) && t.err == nil
+//@ ensures[C02] err == nil && tok != tokenSymbol && tok != tokenSymbolOperator && tok != tokenDot ==> t.valueType == SymbolType && vcIsString(t.value) && vcAsString(t.value) == val
+//@ ensures[C02] err == nil && (tok == tokenSymbol || tok == tokenSymbolOperator || tok == tokenDot) && val == "true" ==> t.valueType == BoolType && vcIsBool(t.value) && t.value.(bool)
+//@ ensures[C02] err == nil && (tok == tokenSymbol || tok == tokenSymbolOperator || tok == tokenDot) && val == "false" ==> t.valueType == BoolType && vcIsBool(t.value) && !t.value.(bool)
+//@ ensures[C02] err == nil && (tok == tokenSymbol || tok == tokenSymbolOperator || tok == tokenDot) && val == "nan" ==> t.valueType == FloatType && vcIsFloat64(t.value)
+//@ ensures[C02] err == nil && (tok == tokenSymbol || tok == tokenSymbolOperator || tok == tokenDot) && val == "null" ==> t.value == nil
+//@ ensures[C02] err == nil && (tok == tokenSymbol || tok == tokenSymbolOperator || tok == tokenDot) && val != "null" && val != "true" && val != "false" && val != "nan" ==> t.valueType == SymbolType && vcIsSymbolToken(t.value)
 //@ modifies t.state, t.valueType, t.value, t.tok.token, t.tok.unfinished, t.tok.pos, t.tok.buffer, vcStreamOf(t.tok.in).cur
 //@ ensures err == nil ==> txInv(t) && t.state != trsBeforeContainer && t.state != trsDone && t.valueType != NoType
 
@@ -1476,8 +1539,10 @@ package ion
 //@ ensures err == nil ==> txInv(t) && t.state != trsBeforeContainer && t.state != trsDone && t.valueType != NoType
 
 //@ func (*textReader).onTimestamp
-//@ trusted thin: assumed to set the value fields and the state consistently (literal parsing not under contract)
-//@ requires txInv(t)
+//@ split returns
+//@ safe[C06]
+//@ requires txInv(t) && t.err == nil
+//@ ensures[C02,C15] err == nil ==> t.valueType == TimestampType && vcIsTimestamp(t.value)
 //@ modifies t.state, t.valueType, t.value, t.tok.token, t.tok.unfinished, t.tok.pos, t.tok.buffer, vcStreamOf(t.tok.in).cur
 //@ ensures err == nil ==> txInv(t) && t.state != trsBeforeContainer && t.state != trsDone && t.valueType != NoType
 
@@ -1488,12 +1553,13 @@ package ion
 //@ ensures err == nil ==> txInv(t) && t.state != trsBeforeContainer && t.state != trsDone && t.valueType != NoType
 
 //@ func (*textReader).verifyUnquotedSymbol
-//@ trusted thin: keyword table not under contract
+//@ safe[C06]
 //@ modifies nothing
 
 //@ func newSymbolToken
-//@ trusted thin: symbol text resolution not under contract
+//@ requires symbolTable != nil
 //@ modifies nothing
+//@ safe[C06]
 
 //@ func (*textReader).stateAfterValue
 //@ inline
@@ -1532,7 +1598,7 @@ package ion
 //@ safe[C06]
 
 //@ func (*textReader).nextBeforeFieldName
-//@ trusted thin: field name parsing not under contract
+//@ safe[C06]
 //@ requires txInv(t) && t.state == trsBeforeFieldName && t.err == nil
 //@ modifies t.state, t.eof, t.fieldName, t.tok.token, t.tok.unfinished, t.tok.pos, t.tok.buffer, vcStreamOf(t.tok.in).cur
 //@ ensures err == nil ==> txInv(t) && t.err == nil && (t.state == trsBeforeFieldName || t.state == trsBeforeTypeAnnotations)
@@ -1685,10 +1751,14 @@ package ion
 //@ ensures[C13,C17] err == nil && specIntSizeOf(d.r) == Int32 ==> result.(int) == *specIntOf(d.r)
 //@ safe[C06,C17]
 
+// The exponent handed to NewDecimal is the written exponent minus the number of fraction
+// digits, computed without wrap-around: what does not fit 32 bits is an error (C13).
 //@ func ParseDecimal
-//@ trusted thin: assumed to return a decimal or an error (text parsing not under contract)
 //@ modifies nothing
-//@ ensures err == nil ==> result != nil
+//@ atcall[C13,C14] NewDecimal [exponent int64] -(1<<31) <= exponent && exponent < 1<<31 && a1 == int32(exponent)
+//@ ensures[C02,C13] err == nil ==> result != nil
+//@ ensures[C07] len(in) == 0 ==> err != nil
+//@ safe[C06]
 
 // ---------------------------------------------------------------------------
 // marshal.go: the kind dispatch of the encoder hands each Go value to the Writer method of
@@ -1750,6 +1820,11 @@ package ion
 //@ trusted thin: called by contract (reflection-heavy, not under contract)
 //@ modifies *
 
+//@ func (*Encoder).Encode
+//@ trusted thin: called by contract from cmd/ion-go; assumed to change only the encoder's own writer, an object its callers under contract do not observe (the body is one call of encodeValue, which is under contract)
+//@ requires m != nil
+//@ modifies nothing
+
 //@ func (*Encoder).encodeValue
 //@ split returns
 //@ requires m.w != nil
@@ -1784,11 +1859,20 @@ package ion
 //@ func (*Decoder).decodeStructTo
 //@ trusted thin: called by contract (reflection-heavy, not under contract)
 //@ modifies *
+// An element is addressed only inside the target: v.Index(i) is reached with 0 <= i < v.Len()
+// in the state of the call (an array target shorter than the Ion sequence drops the excess,
+// it does not index past its end). The growth of a slice target (SetLen against the capacity)
+// is not under contract: it depends on the target's shape surviving the decoding of the
+// elements, which the contracts of the decodeXTo helpers do not say.
 //@ func (*Decoder).decodeSliceTo
-//@ trusted thin: called by contract (reflection-heavy, not under contract)
+//@ requires d.r != nil
 //@ modifies *
+//@ invariant loop0 [i int] 0 <= i
+//@ invariant-assumed loop0 [i int] i < 1<<62
+//@ invariant loop1 [i int] 0 <= i
+//@ atcall[C06,C17] (reflect.Value).Index :: reflect.Value, int :: 0 <= a1 && a1 < a0.Len()
 //@ func indirect
-//@ modifies nothing
+//@ modifies reflect.memory
 //@ invariant loop0 true
 
 // The decoder's kind dispatch: each decodeXTo helper runs only on a non-null value of its own
@@ -1938,7 +2022,7 @@ package ion
 // The serialised local symbol table declares every import after the system table with its
 // name, version and max_id, and every local symbol, in order, none skipped (C11).
 //@ func NewSymbolToken
-//@ trusted thin: called by contract
+//@ safe[C06]
 //@ modifies nothing
 
 //@ func (*lst).WriteTo
@@ -2045,6 +2129,25 @@ package ion
 //@ ensures[C01,C02] isClob && err == nil ==> 0 <= result && result <= 255
 //@ safe[C06]
 
+// A short string never takes a raw line break or another prohibited control character into
+// its value, and never ends at the end of input: every raw character appended to the value is
+// a legal one (an escaped line break is consumed and adds nothing).
+//@ func processBackslashInString
+//@ split returns
+//@ requires t != nil && sb != nil && tkStream(t)
+//@ modifies t.pos, t.buffer, vcStreamOf(t.in).cur
+//@ ensures[C06,C19] tkStream(t)
+//@ safe[C06]
+
+//@ func (*tokenizer).readString
+//@ split returns
+//@ requires tkStream(t)
+//@ modifies t.pos, t.buffer, vcStreamOf(t.in).cur
+//@ invariant loop0 tkStream(t)
+//@ atcall[C02,C07] (*Builder).WriteByte :: *strings.Builder, byte :: [c int] a1 == byte(c) && c != -1 && c != '\n' && c != '"' && c != '\\' && !(0 <= c && c <= 0x1F && c != 0x09 && c != 0x0B && c != 0x0C && c != 0x0D)
+//@ ensures[C06,C19] tkStream(t)
+//@ safe[C06]
+
 //@ func processBackslashInClob
 //@ split returns
 //@ requires t != nil && ret != nil && tkStream(t)
@@ -2102,12 +2205,12 @@ package ion
 // Inside a lob only whitespace is skipped, never comments: '/' is base64 data in a blob
 // and a clob allows no comments (Ion text spec, "Blobs", "Clobs") (C02).
 //@ func (*tokenizer).skipWhitespace
-//@ trusted thin: called by contract; assumed to keep the input attached (scanning loops are not under contract)
+//@ safe[C06]
 //@ requires tkStream(t)
 //@ modifies *
 //@ ensures tkStream(t)
 //@ func (*tokenizer).skipLobWhitespace
-//@ trusted thin: called by contract; assumed to keep the input attached (scanning loops are not under contract)
+//@ safe[C06]
 //@ requires tkStream(t)
 //@ modifies *
 //@ ensures tkStream(t)
@@ -2169,7 +2272,7 @@ package ion
 // position it looks at was checked against the length first, a time of day without an
 // offset is an error.
 //@ func tryCreateDateTimestamp
-//@ trusted thin: called by contract
+//@ safe[C06]
 //@ modifies nothing
 //@ func NewTimestampFromStr
 //@ trusted thin: called by contract (time.Parse based)
@@ -2288,6 +2391,15 @@ package ion
 //@ ensures[C02,C08] err == nil && result0 ==> vcCalls("(*tokenizer).unread") == 1 && result1
 //@ ensures[C02,C08] !result0 ==> vcCalls("(*tokenizer).unread") == 0
 
+// Skipping a blob reads it as a lob: `//` and `/*` inside {{ }} are base64 text, not comments
+// (the same rule as when the value is read, so skipping and reading agree, C08).
+//@ func (*tokenizer).skipBlobHelper
+//@ requires tkStream(t)
+//@ modifies *
+//@ invariant loop0 tkStream(t)
+//@ atcall-if-any[C02,C08] (*tokenizer).skipWhitespace false
+//@ atcall[C02,C08] (*tokenizer).skipLobWhitespace true
+
 //@ func (*tokenizer).skipLongStringHelper
 //@ requires tkStream(t)
 //@ modifies *
@@ -2321,6 +2433,11 @@ package ion
 //@ ensures[C12,C19] err != nil ==> w.err != nil
 //@ atcall[C01,C04] (*binaryWriter).writeValue#1 [vlength uint64] uint64(len(a2)) == vlength+specTagLen(vlength)
 //@ atcall[C01,C04] (*binaryWriter).writeValue#0 len(a2) == 1 && a2[0] == 0x50
+// the one-byte form is positive zero with exponent zero only: a negative zero keeps its sign octet
+//@ atcall[C01,C14] (*binaryWriter).writeValue#0 [coef *big.Int, exp int32] !val.isNegZero && exp == 0 && coef.Sign() == 0
+//@ atcall[C01,C14] (*binaryWriter).writeValue#1 [coef *big.Int, exp int32] val.isNegZero || exp != 0 || coef.Sign() != 0
+//@ atcall[C01,C14] (*binaryWriter).writeValue#1 [vlength uint64, exp int32] val.isNegZero ==> vlength == varIntLen(int64(exp))+1 && len(a2) >= 1 && a2[len(a2)-1] == 0x80
+//@ atcall[C01,C14] (*binaryWriter).writeValue#1 [vlength uint64, exp int32, coef *big.Int] !val.isNegZero ==> vlength == varIntLen(int64(exp))+bigIntLen(coef)
 
 // The text writer sets the pending field name and annotations aside before it writes its
 // symbol table through itself: they belong to the value, not to the table (C04, C01).
